@@ -152,7 +152,7 @@ func zz07SameState(a, b *Encoder) bool {
 // capacity is c, the aliasing path), (b) an encoder with a 256-byte buffer over an
 // accept-all writer, (m) an encoder without a writer, configured as json.Marshal does.
 // After EVERY call: same verdict; delivered(t)++unflushed(t) == delivered(b)++unflushed(b);
-// same OutputOffset and stack; at depth 0 everything has been delivered; and when the first
+// same OutputOffset and stack (with ptr: same StackPointer after the last call); at depth 0 everything has been delivered; and when the first
 // top-level value completes, what (t) delivered is what (m) holds (plus the newline).
 func VerifC07Wr(prog string, c, strLen, rawLen, alpha int, bbuf bool, ws int, noNL, ptr bool) {
 	var wt io.Writer
@@ -184,7 +184,9 @@ func VerifC07Wr(prog string, c, strLen, rawLen, alpha int, bbuf bool, ws int, no
 		vrt.Assert("C07/wr/output-independent-of-buffering", bytes.Equal(zz07Cat(dt, et.s.Buf), zz07Cat(wb.got, eb.s.Buf)))
 		vrt.Assert("C07/wr/offset", et.OutputOffset() == eb.OutputOffset() && et.s.baseOffset == int64(len(dt)))
 		vrt.Assert("C07/wr/state", zz07SameState(et, eb))
-		if ptr {
+		if ptr && i == len(prog)-1 {
+			// only once, at the end: StackPointer itself copies the names out of the buffer,
+			// which would hide name offsets left dangling by an earlier flush
 			vrt.Assert("C07/wr/pointer", et.StackPointer() == eb.StackPointer())
 		}
 		if et.StackDepth() == 0 {
@@ -249,9 +251,6 @@ func VerifC07Short(prog string, c, strLen, rawLen, alpha, nfaults, maxAt, ws int
 			vrt.Assert("C07/short/same-verdict", (err1 == nil) == (err2 == nil))
 		}
 		vrt.Assert("C07/short/state", zz07SameState(et, eb))
-		if ptr {
-			vrt.Assert("C07/short/pointer", et.StackPointer() == eb.StackPointer())
-		}
 		vrt.Assert("C07/short/nothing-lost-or-duplicated", bytes.Equal(zz07Cat(wt.got, et.s.Buf), zz07Cat(wb.got, eb.s.Buf)))
 		vrt.Assert("C07/short/offset", et.OutputOffset() == eb.OutputOffset() && et.s.baseOffset == int64(len(wt.got)))
 		if et.StackDepth() == 0 && err1 == nil {
@@ -263,6 +262,9 @@ func VerifC07Short(prog string, c, strLen, rawLen, alpha, nfaults, maxAt, ws int
 	}
 	for i := 0; i < len(prog); i++ {
 		step(zz07Draw(prog[i], i, strLen, rawLen, alpha))
+	}
+	if ptr {
+		vrt.Assert("C07/short/pointer", et.StackPointer() == eb.StackPointer())
 	}
 	// later calls deliver what a failed final flush retained
 	for i := 0; i < 3 && len(et.s.Buf) > 0 && et.StackDepth() == 0; i++ {
